@@ -33,6 +33,8 @@ TEXTS = [
     's(a). s(b). ac(a,neg(b)). ac(b,neg(a)).',
     's(b). s(a10). s(a2). ac(a10,c(v)). ac(b,and(a10,neg(a2))). ac(a2,a2).',
     's(x). s(y). s(z). ac(x,or(y,neg(z))). ac(y,x). ac(z,and(x,y)).',
+    # four statements whose conditions share sub-diagrams and differ below them (the bridge translates diagram by diagram)
+    's(a). s(b). s(c). s(d). ac(a,neg(b)). ac(b,neg(a)). ac(c,and(a,b)). ac(d,and(a,neg(b))).',
 ]
 MALFORMED = ['s(a). s(b). ac(a,neg(b). ac(b,neg(a)).', 's(a) ac(a,a).', 's(a). ac(a,nand(a,a)).']
 
@@ -351,7 +353,7 @@ def spec(ctx, tier, seed):
         for sort in ('lx', 'an'):
             jobs.append(Job('t1-%s-%s' % (mode, sort), mod, 'cli_job', {'text': TEXTS[1], 'mode': mode, 'sort': sort, 'free': small if tier == 'quick' else SEM_FLAGS}, engine_key=ek, stop_after_violations=400))
             if tier == 'thorough':
-                jobs.append(Job('t3-%s-%s' % (mode, sort), mod, 'cli_job', {'text': texts[3], 'mode': mode, 'sort': sort, 'free': SEM_FLAGS}, engine_key=ek, stop_after_violations=400))
+                jobs.append(Job('t4-%s-%s' % (mode, sort), mod, 'cli_job', {'text': texts[4], 'mode': mode, 'sort': sort, 'free': SEM_FLAGS}, engine_key=ek, stop_after_violations=400))
     for heu in ['Simple', 'MinModMinPathsMaxVarImp', 'MinModMaxVarImpMinPaths'] + (['Rand'] if tier == 'thorough' else []):
         for mode in ('naive', 'hybrid'):
             jobs.append(Job('t0-%s-heu-%s' % (mode, heu), mod, 'cli_job', {'text': TEXTS[0], 'mode': mode, 'heu': heu, 'free': ['stable_ng', 'two_val', 'grounded'], 'max_draws': 30},
